@@ -149,6 +149,12 @@ def check_svd(case, rec):
         rec.label('random_entries')
     tol = resolve_tol(case, designed)
     rec.label('tol_' + ('zero' if tol == 0 else case['tol']['mode']))
+    # the tolerance is a RELATIVE weight, so the split is scale free: the whole matrix times an exact power of two
+    # (2^-70 ~ 1e-21: norm far below machine epsilon; 2^+60)
+    asc = case.get('ascale', 0)
+    if asc:
+        A = A * (2.0 ** asc); designed = np.asarray(designed) * (2.0 ** asc)
+        rec.label('input_scaled_2^%d' % asc)
     A0 = A.copy(); q0c = q0.copy(); q1c = q1.copy()
     u, s, v, q = ptn.split_matrix_svd(A, q0, q1, tol)
     # judged after the library has been used again: results must not live in storage that later calls reuse
@@ -201,7 +207,8 @@ def gen_matrix_case(draw):
             long_ = long_[::-1]
         q0, q1 = (short, long_) if draw(st.booleans()) else (long_, short)
     style = draw(st.sampled_from(SPECTRA + SPECTRA + ['complex', 'real', 'dupcols', 'zeroblock', 'zero']))
-    return {'q0': q0, 'q1': q1, 'seed': draw(st.integers(0, 2**31 - 1)), 'style': style, 'tol': draw(tol_strategy())}
+    return {'q0': q0, 'q1': q1, 'seed': draw(st.integers(0, 2**31 - 1)), 'style': style, 'tol': draw(tol_strategy()),
+            'ascale': draw(st.sampled_from([0, 0, 0, -70, -120, 60]))}
 
 
 # ---- two-site tensor split ------------------------------------------------------------
@@ -230,6 +237,9 @@ def check_split_tensor(case, rec):
     ql = np.array(case['ql']); qr = np.array(case['qr'])
     d0, d1 = len(qd0), len(qd1)
     A = twosite_tensor(case)
+    if case.get('ascale'):
+        A = A * (2.0 ** case['ascale'])
+        rec.label('input_scaled_2^%d' % case['ascale'])
     distr = case['distr']
     tol = float(case['tolx'])
     A0 = A.copy()
@@ -261,7 +271,8 @@ def check_split_tensor(case, rec):
         s = np.linalg.norm(M1, axis=1); u = M0; v = M1 / s[:, None]
     else:
         s0 = np.linalg.norm(M0, axis=0); s1 = np.linalg.norm(M1, axis=1)
-        require(np.max(np.abs(s0 - s1)) <= TOL * nrm, "'sqrt' distribution is not balanced", s0=s0.tolist(), s1=s1.tolist())
+        # both factors carry sqrt(sigma): their column / row norms have the dimension of sqrt(||A||)
+        require(np.max(np.abs(s0 - s1)) <= 10 * TOL * np.sqrt(nrm), "'sqrt' distribution is not balanced", s0=s0.tolist(), s1=s1.tolist())
         s = s0 * s1; u = M0 / s0; v = M1 / s1[:, None]
     q0 = (qd0[:, None] + ql[None, :]).reshape(-1)
     q1 = (-qd1[:, None] + qr[None, :]).reshape(-1)
@@ -302,7 +313,7 @@ def gen_tensor_case(draw):
     tolx = draw(st.sampled_from([0.0, 0.0, 1e-12, 1e-6, 1e-3, 0.05, 0.3, 0.9]))
     return {'qd0': qd0, 'qd1': qd1, 'ql': ql, 'qr': qr, 'seed': draw(st.integers(0, 2**31 - 1)),
             'style': draw(st.sampled_from(['complex', 'real'])), 'decay': draw(st.booleans()),
-            'distr': draw(st.sampled_from(['left', 'right', 'sqrt'])), 'tolx': tolx}
+            'distr': draw(st.sampled_from(['left', 'right', 'sqrt'])), 'tolx': tolx, 'ascale': draw(st.sampled_from([0, 0, 0, -70, 60]))}
 
 
 PARTS = [
